@@ -744,11 +744,15 @@ pub fn cases(tier: Tier) -> Vec<Case> {
     markets.push(Market { n: 4, quotes: vec![(0, 1), (2, 1), (2, 3)], settle: false, base: None, rolls: vec![] });
     markets.push(Market { n: 4, quotes: vec![(1, 0), (0, 2), (3, 0)], settle: true, base: Some(3), rolls: vec![] });
     for (ti, edges) in prufer_trees(4).iter().enumerate() {
-        // quick: every labelled tree on 4 currencies in one (alternating) orientation; thorough: every orientation
+        // quick: every second labelled tree on 4 currencies (stars and paths both occur among them) in one (alternating)
+        // orientation; thorough: every tree in every orientation
+        if tier != Tier::Thorough && ti % 2 == 1 {
+            continue;
+        }
         let orients: Vec<usize> = if tier == Tier::Thorough { (0..8).collect() } else { vec![0b010] };
         for orient in orients {
             let q: Vec<(usize, usize)> = edges.iter().enumerate().map(|(i, (a, b))| if orient & (1 << i) != 0 { (*b, *a) } else { (*a, *b) }).collect();
-            markets.push(Market { n: 4, quotes: q, settle: ti % 2 == 1, base: if ti % 3 == 0 { None } else { Some(ti % 4) }, rolls: vec![] });
+            markets.push(Market { n: 4, quotes: q, settle: if tier == Tier::Thorough { ti % 2 == 1 } else { (ti / 2) % 2 == 1 }, base: if ti % 3 == 0 { None } else { Some(ti % 4) }, rolls: vec![] });
         }
     }
     // the settlement date is part of the state: every market is rolled between no date and a date (thorough tier: and a
@@ -784,7 +788,7 @@ pub fn cases(tier: Tier) -> Vec<Case> {
         let a1 = vec![upd(vec![(0, 0)], 0), upd(vec![(0, 1)], 0), upd(vec![(0, 0)], 3), upd(vec![(0, 1)], 1), upd(vec![(0, 1)], 2), Act::SetOrder(0), Act::SetOrder(1), Act::SetOrder(2), Act::BadUpdate(2), Act::Roll(1), Act::Roll(0)];
         let m2 = Market { n: 3, quotes: vec![(0, 1), (2, 1)], settle: true, base: None, rolls: vec![] };
         let a2 = vec![upd(vec![(0, 1)], 0), upd(vec![(1, 1)], 3), upd(vec![(0, 0), (1, 0)], 0), Act::SetOrder(0), Act::SetOrder(1), Act::SetOrder(2), Act::BadUpdate(3), Act::Roll(0)];
-        for (m, a, depth) in [(m1, a1, tier.pick(5usize, 6usize)), (m2, a2, tier.pick(5usize, 6usize))] {
+        for (m, a, depth) in [(m1, a1, tier.pick(5usize, 6usize)), (m2, a2, tier.pick(4usize, 6usize))] {
             for x in a.iter() {
                 for y in a.iter() {
                     out.push(Case::Deep { market: m.clone(), alphabet: a.clone(), prefix: vec![x.clone(), y.clone()], depth });
